@@ -77,19 +77,20 @@ fn exec_line(line: &str) -> String {
         }
         let leaves_coq = match &leaves {
             Some(l) => format!(
-                "Some [{}]",
-                l.iter()
-                    .map(|(id, d)| {
-                        let (len, h) = vsig(d);
-                        format!("({}, ({}%nat, {}%Z))", id, len, h)
-                    })
-                    .collect::<Vec<_>>()
-                    .join(";")
+                "Some {}",
+                coq_cons(
+                    &l.iter()
+                        .map(|(id, d)| {
+                            let (len, h) = vsig(d);
+                            format!("({}, ({}%nat, {}%Z))", id, len, h)
+                        })
+                        .collect::<Vec<_>>()
+                )
             ),
             None => "None".to_string(),
         };
         subsets.push(format!(
-            "{{| u_mask := {}; u_am_plan := {}; u_leaves := {}; u_partial_ops := {}; u_plan2 := {}; u_final := {} |}}",
+            "(Build_subset_obs {} ({}) ({}) {} ({}) ({}))",
             coq_list(&bits), coq_plan(&am_plan), leaves_coq, coq_list(&partial_ops), coq_plan(&plan2), fin.coq()
         ));
     }
@@ -103,8 +104,8 @@ fn exec_line(line: &str) -> String {
     }
     let ins: Vec<String> = c.ins.iter().map(|(i, d)| format!("({}, {})", i, d.coq())).collect();
     let term = format!(
-        "{{| c4_graph := {}; c4_ops := {}; c4_consts := {}; c4_ins := [{}]; c4_outs := {}; c4_nonce := {}%Z; c4_full := {}; c4_subsets := [{}] |}}",
-        coq_graph(&c.spec), coq_ops(&c.spec), coq_consts(&c.consts), ins.join(";"), coq_list(&c.outs), NONCE, full.coq(), subsets.join(";")
+        "{{| c4_graph := {}; c4_ops := {}; c4_consts := {}; c4_ins := {}; c4_outs := {}; c4_nonce := {}%Z; c4_full := {}; c4_subsets := {} |}}",
+        coq_graph(&c.spec), coq_ops(&c.spec), coq_consts(&c.consts), coq_cons(&ins), coq_list(&c.outs), NONCE, full.coq(), coq_cons(&subsets)
     );
     let tag = format!(
         "{}-in{}{}{}",
@@ -120,7 +121,7 @@ fn exec_line(line: &str) -> String {
 fn timeout_line(line: &str) -> String {
     let c = parse_case(line);
     format!(
-        "timeout\t{}\t{{| c4_graph := {}; c4_ops := []; c4_consts := []; c4_ins := []; c4_outs := []; c4_nonce := 0%Z; c4_full := ITimeout; c4_subsets := [{{| u_mask := []; u_am_plan := None; u_leaves := None; u_partial_ops := []; u_plan2 := None; u_final := ITimeout |}}] |}}",
+        "timeout\t{}\t{{| c4_graph := {}; c4_ops := nil; c4_consts := nil; c4_ins := nil; c4_outs := nil; c4_nonce := 0%Z; c4_full := ITimeout; c4_subsets := (cons (Build_subset_obs nil None None nil None ITimeout) nil) |}}",
         line, coq_graph(&c.spec)
     )
 }
